@@ -265,13 +265,6 @@ theorem real_compare_sound (ρ : Nat → Val) (goal : AExpr) (th : Thm) :
 example : (accept .realCompare (.cmp .ge .real (.ofNat .real (.bit0 (.one .nat))) (.one .real))).isOk = true := by
   decide +kernel
 
-/-- The evaluator `const_inequality` picks is sound at the type it is picked for. -/
-theorem ineqEvaluator_sound (T : Ty) (ev : AExpr → Except Err Num) (h : ineqEvaluator T = some ev) :
-    EvSound T ev ∧ (T = .nat ∨ T = .real) := by
-  cases T <;> simp [ineqEvaluator] at h
-  · subst h; exact ⟨evSound_natNum, Or.inl rfl⟩
-  · subst h; exact ⟨evSound_evalHol, Or.inr rfl⟩
-
 /-- `const_inequality`, PARTIAL: only the branch in which both sides are evaluated exactly
 (`nat_eval`, or `real_eval` succeeding) is modelled; there the asserted goal is true and relates
 terms of type nat or real.  When `real_eval` fails the Python decides with interval bounds
@@ -420,5 +413,8 @@ comparison holds. -/
 theorem interval_decision_sound (x y lo1 hi1 lo2 hi2 : Rat) (hx : lo1 ≤ x ∧ x ≤ hi1)
     (hy : lo2 ≤ y ∧ y ≤ hi2) : (hi1 < lo2 → x < y) ∧ (hi1 ≤ lo2 → x ≤ y) ∧ (hi1 < lo2 ∨ hi2 < lo1 → x ≠ y) := by
   grind
+
+example : (1 : Rat) ≠ 3 := (interval_decision_sound 1 3 (1/2) (3/2) (5/2) (7/2) (by decide +kernel) (by decide +kernel)).2.2
+  (Or.inl (by decide +kernel))
 
 end Holpy.C05
